@@ -47,6 +47,8 @@ for _pid in ("C02", "C03", "C09"):
         trusted=_PROG_TRUSTED, assumptions=_PROG_ASSUME,
         explanation="theorems over the deep-embedded goal language and the stream/thunk search model; tie: cell traces of generated goal programs run with the real combinators",
     )
+PROPS["C03"]["gens"] = [gens.gen_stream]
+PROPS["C03"]["model"] = "Stream.v (take = gen/StreamGen.v, translated from micro/stream.go on every run; StreamGenSpec.v)"
 
 _GOMINI_TRUSTED = ["Go values are encoded as terms by the harness (variables by creation order, nil, scalar pointers by content, struct pointers and slices as tagged lists); "
                    "the encoding is injective (C04_encoding_faithful) and the harness reads bindings back through the exported API (CastVar/Get)",
